@@ -365,6 +365,11 @@ func (p c10) Eval(c *Case, outs []*Out) []Discrepancy {
 			continue
 		}
 		if o.Res.Exit != 0 {
+			if meta.Feat.SlashDef && bytes.Contains(o.Stderr, []byte("/x")) {
+				// "#/$defs/T0Da/x": read strictly as a JSON pointer it denotes nothing; failing on it is a reading of
+				// the reference, not a defect. Only binding it to something else is judged (clause A).
+				continue
+			}
 			fc := failClass(o.Stderr)
 			if meta.MergedRel {
 				fc += ":merged-target-has-relative-ref"
@@ -533,6 +538,21 @@ func (p c10) Eval(c *Case, outs []*Out) []Discrepancy {
 					add("A", "combinator-merge-leaks-between-compositions", fmt.Sprintf("%s over $ref %q in %s (property %q, own branch marker %s): the merged type %s carries branch markers %v", r.Combo, r.Ref, r.FromTag, r.Prop, r.CB, ft, cbs))
 				}
 				continue
+			}
+			if r.PureAlias {
+				// a reference to a definition that is only another name for a definition: untyped today - interface{}, or
+				// (as array items) a named type declared as interface{}
+				untyped := base == "interface{}"
+				for _, g := range files {
+					if g.Err == nil && g.Pkg == pkg {
+						if t, ok := g.Decls["type "+base]; ok && strings.HasSuffix(strings.TrimSpace(t), " interface{}") {
+							untyped = true
+						}
+					}
+				}
+				if untyped {
+					continue
+				}
 			}
 			th, ok := holder[toMk]
 			if !ok {
